@@ -57,7 +57,13 @@ func genItem(t *rapid.T) Item {
 		// re-match with patterns the regexp package accepts and ones it refuses (XSD-only constructs, malformed):
 		// what one evaluation compiles must not show in another
 		pats := []string{"val.*", "x+", ".*ctx.*", "[a-z:/]+", "\\p{IsBasicLatin}+", "[a-", "\\i\\c*", "(", "val:.*\\", "*"}
-		return Item{Src: fmt.Sprintf("re-match(%s, '%s')", []string{"a", "../b", "string(current()/a)", "'val:/x'"}[rapid.IntRange(0, 3).Draw(t, "rearg")], pats[rapid.IntRange(0, len(pats)-1).Draw(t, "repat")]),
+		pat := pats[rapid.IntRange(0, len(pats)-1).Draw(t, "repat")]
+		if rapid.Bool().Draw(t, "freshpat") {
+			// a pattern this process has not met before (as patterns taken from the data are): whatever the evaluation keeps
+			// about patterns is written while other runs read it
+			pat = fmt.Sprintf("(%s|n%d)", []string{"val.*", ".*ctx.*", "[a-z:/]+"}[rapid.IntRange(0, 2).Draw(t, "freshbase")], rapid.IntRange(0, 1<<30).Draw(t, "freshnum"))
+		}
+		return Item{Src: fmt.Sprintf("re-match(%s, '%s')", []string{"a", "../b", "string(current()/a)", "'val:/x'"}[rapid.IntRange(0, 3).Draw(t, "rearg")], pat),
 			Ctx: tree.ID{{Name: []string{"ctx", "x", "q"}[rapid.IntRange(0, 2).Draw(t, "rectx")]}}}
 	case 7, 8:
 		// a custom function that fails (default value) at "boom" contexts and succeeds elsewhere
@@ -118,6 +124,9 @@ func treeDamage() string {
 		}
 		return true
 	})
+	if msg == "" {
+		msg = keptPaths.Damage()
+	}
 	return msg
 }
 
@@ -135,8 +144,11 @@ type outcome struct {
 	result     string
 }
 
+// keptPaths: the data trees of this process keep their path objects (one per node, shared by every run that comes by the node)
+var keptPaths = &tree.PathStore{}
+
 func runMachine(m *xpath.Machine, it Item) string {
-	tr := &tree.Tree{NoRecord: true}
+	tr := &tree.Tree{NoRecord: true, Paths: keptPaths}
 	// every third node is a leaf-list with several values (of different lengths per variant), the others are leaves
 	tr.ValueOf = func(id tree.ID) (xpath.Datum, error) {
 		s := id.String()
@@ -295,8 +307,12 @@ func checkCase(c Case) fw.Outcome {
 						n := freshNames.Add(1)
 						fit := Item{Src: fmt.Sprintf("concat(fresh%d, '|', ../fresh%d-b[k%d = 'v']/w%d)", n, n, n, n), Ctx: it.Ctx}
 						fgot, _ := isolated(fit)
+						// ... and patterns no evaluation of this process has met (as patterns that come from the data are new):
+						// whatever an evaluation keeps about patterns is written here while other goroutines read it
+						rit := Item{Src: fmt.Sprintf("re-match(a, '(val.*|n%d)') or re-match(../b, 'x%d+')", n, n), Ctx: it.Ctx}
+						rgot, _ := isolated(rit)
 						mu.Lock()
-						fresh = append(fresh, freshRun{fit, fgot})
+						fresh = append(fresh, freshRun{fit, fgot}, freshRun{rit, rgot})
 						mu.Unlock()
 					case "run":
 						if m := machines[op.Item]; m != nil {
@@ -355,7 +371,7 @@ var conc = fw.Register(&fw.Prop[Case]{
 	ID: "C06", Name: "concurrent",
 	Rule: "a pool of 4-12 expressions (C01/C02/C03 generators, function-heavy expressions, some that do not compile), each with an isolated oracle result, " +
 		"and a schedule of 2-16 goroutines with generated operation lists (compile+run a pool item; run a shared machine on a fresh context; run a shared machine on alternating contexts t,u,t, u being another node or the same node in a data tree with other values and leafref targets; " +
-		"each goroutine works on its own data variant; a third of the nodes are multi-valued leaf-lists); " +
+		"each goroutine works on its own data variant; a third of the nodes are multi-valued leaf-lists; the trees keep one path object per node, with room behind its last element, and hand it to every run that comes by); " +
 		"half the cases re-arm the lazy plugin load (verif hook) and compile the shared machines concurrently (cold start); each schedule is executed 3 times; " +
 		"oracle: every result equals the isolated result, and the binary is built with -race (any report kills the shard and the journaled schedule becomes the replay); " +
 		"non-trivial = at least 2 goroutines run the same shared machine while at least one other goroutine compiles",
